@@ -1071,4 +1071,63 @@ theorem C06_pow_01 (e : Env) (val : Val) (a : Nat) :
     exact fresh_range_sound' (fin 1) (fin 1) 1 (Or.inr (by simp [lbOK])) (Or.inr (by simp [ubOK]))
   · exact ⟨by simp [preproPow], by simp [Con.eval]⟩
 
+/-- **power with a negative integer exponent `−k`**: nothing is inferred when `lb < 0`; for `lb ≥ 0` the function is
+decreasing on the positive reals: `[ub^(−k), lb^(−k)]` with `0^(−k) = +∞`, `(+∞)^(−k) = 0`.  Stated at the points where the
+expression is defined (`x ≠ 0`). -/
+theorem C06_pow_neg (e : Env) (val : Val) (h : Feasible e val) (a k : Nat) (hk : 1 ≤ k) (hx0 : val a ≠ 0) :
+    ∃ pre, preproPow e a (-(k : Rat)) = .keep pre (.pow a (-(k : Rat))) ∧
+      pre.Contains (Con.eval tr trp val (.pow a (-(k : Rat)))) := by
+  obtain ⟨hl, hu, _⟩ := h a
+  have hkq : (0 : Rat) < (k : Rat) := by exact_mod_cast hk
+  have hp0 : ¬ (-(k : Rat) = 0) := by linarith
+  have hp1 : ¬ (-(k : Rat) = 1) := by linarith
+  have hden : (-(k : Rat)).den = 1 := by simp
+  have hnum : (-(k : Rat)).num = -(k : Int) := by simp
+  have hint : ratIsInt (-(k : Rat)) = true := by simp [ratIsInt]
+  have hneg : (-(k : Rat)) < 0 := by linarith
+  have hnn : ¬ ((0 : Rat) ≤ -(k : Rat)) := by linarith
+  have hval : Con.eval tr trp val (.pow a (-(k : Rat))) = (val a ^ k)⁻¹ := by
+    simp only [Con.eval, hden, if_true, hnum, zpow_neg, zpow_natCast]
+  have hpow : ∀ b, ER.pow b (-(k : Rat)) = some (powi b (-(k : Int))) := by
+    intro b; simp only [ER.pow, hden, if_true, hnum]
+  unfold preproPow
+  simp only [hp0, hp1, if_false, hint, Bool.not_true, Bool.false_and, hneg, decide_true, Bool.true_and, Bool.false_or, hpow,
+    hnn, decide_false, Bool.and_false, Bool.false_eq_true]
+  by_cases hlbneg : lt (e a).lb (fin 0) = true
+  · simp only [hlbneg, if_true]
+    exact ⟨_, rfl, default_contains _⟩
+  · simp only [hlbneg, Bool.false_eq_true, if_false, Bool.and_false, Bool.false_and]
+    refine ⟨_, rfl, ?_⟩
+    rw [hval]
+    obtain ⟨q, hq, hq0⟩ : ∃ q, (e a).lb = fin q ∧ 0 ≤ q := by
+      cases hlb : (e a).lb <;> simp_all [ER.lt, lbOK]
+    rw [hq] at hl; simp only [lbOK] at hl
+    have hx : 0 < val a := lt_of_le_of_ne (le_trans hq0 hl) (Ne.symm hx0)
+    have hxk : 0 < val a ^ k := pow_pos hx k
+    have hkneg : (-(k : Int)) < 0 := by omega
+    have hknp : ¬ (0 < -(k : Int)) := by omega
+    -- lb^(−k) is an upper bound
+    have hup : ubOK (powi (e a).lb (-(k : Int))) ((val a ^ k)⁻¹) := by
+      rw [hq]
+      by_cases hq00 : q = 0
+      · have hk0 : 0 < k := hk
+        simp [powi, hq00, hk0, ubOK]
+      · have hqpos : 0 < q := lt_of_le_of_ne hq0 (Ne.symm hq00)
+        simp only [powi, hq00, false_and, if_false, ubOK, zpow_neg, zpow_natCast]
+        exact inv_anti₀ (pow_pos hqpos k) (pow_le_pow_left₀ hq0 hl k)
+    -- ub^(−k) is a lower bound
+    have hlo : lbOK (powi (e a).ub (-(k : Int))) ((val a ^ k)⁻¹) := by
+      cases hub : (e a).ub with
+      | pinf => simp only [powi, hknp, if_false, lbOK]; exact (inv_pos.mpr hxk).le
+      | fin u =>
+        rw [hub] at hu; simp only [ubOK] at hu
+        have hu0 : u ≠ 0 := by linarith
+        simp only [powi, hu0, false_and, if_false, lbOK, zpow_neg, zpow_natCast]
+        exact inv_anti₀ hxk (pow_le_pow_left₀ hx.le hu k)
+      | ninf => rw [hub] at hu; simp [ubOK] at hu
+      | nan => rw [hub] at hu; simp [ubOK] at hu
+    obtain ⟨_, _, o3, o4⟩ := order_pair _ _ _ hlo hup
+    exact ⟨narrow_lb _ _ _ (by simp [lbOK]) (Or.inr o3), narrow_ub _ _ _ (by simp [ubOK]) (Or.inr o4),
+           fun hh => by simp [Pre.narrow] at hh⟩
+
 end MpVerif.C06
